@@ -1539,6 +1539,9 @@ def metacall():
             rev = self.rev
             idx = self.idx
             queue = self.queue
+            if not queue.maxlen:
+                # A zero-length cache stores nothing.
+                return
             if value in rev:
                 value = idx[value]
             else:
